@@ -147,6 +147,22 @@ pub fn pw_from<T: Nums>(ends: &[f64], coeffs: &[Vec<f64>]) -> Piecewise<T> {
             .collect(),
     }
 }
+/// With probability 1/4 make one or two runs of neighbouring pieces identical (same coefficients): a function whose
+/// neighbouring pieces happen to be equal (collinear knots, plateaux, redundant breakpoints) is a realistic input, and
+/// anything that "coalesces" equal neighbours only shows there.
+pub fn repeat_some_pieces(r: &mut crate::gen::Rng, coeffs: &mut [Vec<f64>]) {
+    if coeffs.len() < 2 || !r.chance(0.25) {
+        return;
+    }
+    for _ in 0..r.usize(1, 2) {
+        let i = r.usize(1, coeffs.len() - 1);
+        let run = r.usize(1, 3).min(coeffs.len() - i);
+        for j in i..i + run {
+            coeffs[j] = coeffs[i - 1].clone();
+        }
+    }
+}
+
 pub fn pw_ends<T>(p: &Piecewise<T>) -> Vec<f64> {
     p.segments.iter().map(|s| s.end).collect()
 }
